@@ -1,5 +1,5 @@
 #![allow(dead_code)]
-mod vocab; mod tree; mod val; mod call; mod render; mod refsem; mod expect; mod engine; mod meta;
+mod vocab; mod tree; mod val; mod call; mod render; mod refsem; mod expect; mod engine; mod meta; mod agg;
 
 use engine::*;
 use serde_json::{json, Value};
@@ -92,6 +92,96 @@ fn run_replay(job: &Value) {
     write_stats(job, &mut out, true);
 }
 
+fn run_agg(job: &Value) {
+    let v = vocab::Vocab::load(job["vocab"].as_str().unwrap());
+    let mut out = open_out(job, profile_name());
+    let shard = job["shard"].as_u64().unwrap_or(0);
+    let nshards = job["nshards"].as_u64().unwrap_or(1);
+    let start = job["start"].as_u64().unwrap_or(0);
+    let mut rng = Rng(job["seed"].as_u64().unwrap_or(1).wrapping_mul(0x9E3779B97F4A7C15) ^ (shard + 77));
+    if let Some(e) = job["boundary_e"].as_str() {
+        agg::replay_boundary(&mut out, &v, e, job["exhaustive_len"].as_u64().unwrap_or(2) as usize, job["random_lists"].as_u64().unwrap_or(200) as usize, &mut rng);
+    } else {
+        let file = std::io::BufReader::new(std::fs::File::open(job["beh"].as_str().unwrap()).unwrap());
+        for (i, line) in file.lines().enumerate() {
+            let i = i as u64;
+            if i % nshards != shard || i < start { continue; }
+            let bv: Value = match serde_json::from_str(&line.unwrap()) { Ok(x) => x, Err(_) => continue };
+            out.heartbeat(i);
+            out.stats.items += 1;
+            agg::replay_vector(&mut out, &v, &bv, i);
+        }
+    }
+    out.heartbeat(u64::MAX);
+    write_stats(job, &mut out, true);
+}
+
+/// ref-selftest: the reference interpreter instantiated at the specification's small word size must
+/// reproduce every vector TLC computed from IntSem / NumSem (spec/MCSem.tla).
+fn run_selftest(job: &Value) {
+    use refsem::i64sem::I64Sem;
+    use refsem::numsem::{NumSem, NAlt, NV};
+    use refsem::{Sem, Stop};
+    let file = std::io::BufReader::new(std::fs::File::open(job["beh"].as_str().unwrap()).unwrap());
+    let (mut n, mut bad) = (0u64, 0u64);
+    let mut first_bad: Vec<String> = vec![];
+    let mut samples: Vec<Value> = vec![];
+    for line in file.lines() {
+        let line = line.unwrap();
+        let v: Value = match serde_json::from_str(&line) { Ok(x) => x, Err(_) => continue };
+        let (kind, op) = (v["kind"].as_str().unwrap(), v["op"].as_str().unwrap());
+        let (a, b, w) = (v["a"].as_i64().unwrap() as i128, v["b"].as_i64().unwrap() as i128, v["w"].as_u64().unwrap() as u32);
+        let r = &v["r"];
+        n += 1;
+        let ok = match kind {
+            "ibin" | "iun" => {
+                let s = I64Sem::new(w, 0);
+                let got = if kind == "ibin" { s.bin(op, a, b) } else { match op { "abs" => s.call("Abs", vec![a]), "sgn" => s.call("Sign", vec![a]), _ => s.un(op, a) } };
+                match (r["k"].as_str().unwrap(), &got) {
+                    ("ok", Ok(x)) => *x == r["v"].as_i64().unwrap() as i128,
+                    ("err", Err(Stop::Err(_))) => true,
+                    ("unspec", Err(Stop::Unspec(_))) => true,
+                    _ => false,
+                }
+            }
+            "nbin" | "nun" => {
+                let s = NumSem::new(w, NV::I(0));
+                let one = |x: i128| NAlt(vec![NV::I(x)]);
+                let got = if kind == "nbin" { s.bin(op, one(a), one(b)) } else { match op { "abs" => s.call("Abs", vec![one(a)]), "sgn" => s.call("Sign", vec![one(a)]), "floor" => s.call("Floor", vec![one(a)]), _ => s.un(op, one(a)) } };
+                let t = r["t"].as_str().unwrap();
+                let (rn, rd) = (r["n"].as_i64().unwrap(), r["d"].as_i64().unwrap());
+                match (t, &got) {
+                    ("I", Ok(x)) => x.0 == vec![NV::I(rn as i128)],
+                    ("F", Ok(x)) => x.0.len() == 1 && matches!(x.0[0], NV::F(f) if f == (rn as f64) / (rd as f64)),
+                    ("NaN", Ok(x)) => matches!(x.0[0], NV::F(f) if f.is_nan()),
+                    ("Inf", Ok(x)) => matches!(x.0[0], NV::F(f) if f.is_infinite() && (f > 0.0) == (rn > 0)),
+                    ("unspec", Err(Stop::Unspec(_))) => true,
+                    // a Float fallback whose value the model cannot hold in 32 bits: the interpreter must answer Float (or decline at small W)
+                    ("Fpow", Ok(x)) => matches!(x.0[0], NV::F(f) if f == (rn as f64).powf(rd as f64)),
+                    ("Ffact", Err(Stop::Unspec(_))) => true,
+                    ("Ffact", Ok(x)) => matches!(x.0[0], NV::F(_)),
+                    _ => false,
+                }
+            }
+            "round" => {
+                let s = NumSem::new(w, NV::I(0));
+                let x = NAlt(vec![NV::F(a as f64 / b as f64)]);
+                ["floor", "ceil", "trunc", "round"].iter().all(|f| {
+                    let want = r[*f].as_i64().unwrap() as f64;
+                    let fname = match *f { "floor" => "Floor", "ceil" => "Ceil", "trunc" => "Truncate", _ => "Round" };
+                    match s.call(fname, vec![x.clone()]) { Ok(y) => y.0.iter().all(|v| v.as_f64() == want), _ => false }
+                })
+            }
+            _ => true,
+        };
+        if !ok { bad += 1; if first_bad.len() < 5 { first_bad.push(line.clone()); } }
+        else if samples.len() < 4 && n % 9973 == 1 { samples.push(v.clone()); }
+    }
+    let out = json!({"vectors": n, "disagreements": bad, "first": first_bad, "samples": samples});
+    std::fs::write(job["stats"].as_str().unwrap(), out.to_string()).unwrap();
+    if bad > 0 { eprintln!("ref-selftest: {} of {} vectors disagree, e.g. {:?}", bad, n, first_bad); std::process::exit(3); }
+}
+
 fn main() {
     let args: Vec<String> = std::env::args().collect();
     call::install_quiet_panic_hook();
@@ -99,6 +189,8 @@ fn main() {
         let job: Value = serde_json::from_str(&std::fs::read_to_string(&args[2]).unwrap()).unwrap();
         match job["mode"].as_str().unwrap() {
             "replay" => run_replay(&job),
+            "selftest" => run_selftest(&job),
+            "agg" => run_agg(&job),
             m => { eprintln!("unknown mode {}", m); std::process::exit(2); }
         }
     } else if args.len() >= 4 && args[1] == "one" {
